@@ -45,7 +45,7 @@ theorem packetEq_refl (p : Packet) : packetEq p p = true := by
   split
   · rename_i h
     cases hp : p.payload with
-    | none => simp [Packet.payloadLength, hp] at h
+    | none => simp [Packet.fullLength, hp] at h
     | some x => simp [payloadEq_refl]
   · simp
 
@@ -63,12 +63,12 @@ theorem packetEq_symm (a b : Packet) : packetEq a b = packetEq b a := by
   have e9 : (a.segType == b.segType) = (b.segType == a.segType) := Bool.beq_comm ..
   rw [e1, e2, e3, e4, e5, e6, e7, e8, e9]
   congr 1
-  by_cases h : a.payloadLength = b.payloadLength
-  · by_cases h0 : 0 < a.payloadLength
-    · have h0' : 0 < b.payloadLength := h ▸ h0
+  by_cases h : a.fullLength = b.fullLength
+  · by_cases h0 : 0 < a.fullLength
+    · have h0' : 0 < b.fullLength := h ▸ h0
       rw [if_pos ⟨h, h0⟩, if_pos ⟨h.symm, h0'⟩]
       cases a.payload <;> cases b.payload <;> simp [payloadEq_symm]
-    · have h0' : ¬ 0 < b.payloadLength := h ▸ h0
+    · have h0' : ¬ 0 < b.fullLength := h ▸ h0
       rw [if_neg (fun x => h0 x.2), if_neg (fun x => h0' x.2)]
       exact Bool.beq_comm ..
   · rw [if_neg (fun x => h x.1), if_neg (fun x => h x.1.symm)]
@@ -77,19 +77,19 @@ theorem packetEq_symm (a b : Packet) : packetEq a b = packetEq b a := by
 /-- inequality is the negation of equality -/
 theorem packetNe_not (a b : Packet) : packetNe a b = !packetEq a b := rfl
 
-/-- for packets whose payloads are non-empty (and shorter than 2^16) equality agrees with
-    field-by-field comparison, i.e. with equality of values -/
+/-- for packets whose payloads are non-empty — of ANY size, also 65536 bytes and more since the
+    repair of operator== — equality agrees with field-by-field comparison, i.e. with equality of values -/
 theorem packetEq_fieldwise (a b : Packet) (x y : Payload) (ha : a.payload = some x) (hb : b.payload = some y)
-    (hx : 0 < x.data.length ∧ x.data.length < 65536) (hy : 0 < y.data.length ∧ y.data.length < 65536) :
+    (hx : 0 < x.data.length) (hy : 0 < y.data.length) :
     packetEq a b = true ↔ a = b := by
-  have la : a.payloadLength = x.data.length := by simp [Packet.payloadLength, ha]; omega
-  have lb : b.payloadLength = y.data.length := by simp [Packet.payloadLength, hb]; omega
+  have la : a.fullLength = x.data.length := by simp [Packet.fullLength, ha]
+  have lb : b.fullLength = y.data.length := by simp [Packet.fullLength, hb]
   constructor
   · intro h
     simp only [packetEq, Bool.and_eq_true, beq_iff_eq] at h
     obtain ⟨⟨⟨⟨⟨⟨⟨⟨⟨h1, h2⟩, h3⟩, h4⟩, h5⟩, h6⟩, h7⟩, h8⟩, h9⟩, h10⟩ := h
     have hpl : x = y := by
-      by_cases hl : a.payloadLength = b.payloadLength
+      by_cases hl : a.fullLength = b.fullLength
       · rw [if_pos ⟨hl, by omega⟩, ha, hb] at h10
         exact (payloadEq_iff x y).mp h10
       · rw [if_neg (fun z => hl z.1)] at h10
